@@ -61,6 +61,7 @@ def run_translators():
 
 
 def coq_makefile():
+    sh(["sh", os.path.join(VERIF, "tools", "mkcoqproject.sh")], timeout=60)
     mk = os.path.join(COQ, "Makefile")
     cp = os.path.join(COQ, "_CoqProject")
     if not os.path.exists(mk) or os.path.getmtime(mk) < os.path.getmtime(cp):
